@@ -2,6 +2,10 @@
 
 Monitor shape: reference-model (Python set / dict / sorted() / bytes) driven with the
 same operation sequence as the real object; every observable is compared.
+
+Hash files are additionally written with sets of distinct keys whose FULL 32-bit hash values are equal (found by a
+birthday search inside the check, per hash function), because a table slot stores the hash value and random keys
+never meet on 32 bits: see equalhash_case.
 """
 import collections
 import hashlib
@@ -18,7 +22,14 @@ RULE = ("cases are seeded operation programs: (a) id-set programs = constructor 
         "BitSet/SortedIntSet/ReverseIdSet vs a Python set, with OnDiskBitSet/from_bytes/from_disk/ReverseIdSet views of the "
         "final state, and MultiIdSet over 1..4 serial sub-sets; (b) hash-file (3 hash types, duplicate keys, forced "
         "bucket collisions, logical file offsets shifted past 2^16/2^31/2^32), ordered-hash, number-encoding, varint, "
-        "GrowableArray, StructFile, external-sort and compound-file round trips vs dict/sorted()/bytes. "
+        "GrowableArray, StructFile, external-sort and compound-file round trips vs dict/sorted()/bytes; "
+        "(c) one case in 19 (idx % 19 == 7, own stream) is an equal-hash table: HashWriter (hash types 0/1/2) or "
+        "OrderedHashWriter files holding 1..3 sets of distinct keys with the SAME full 32-bit hash value (different and "
+        "equal key lengths, every insertion order, optionally one member left out = an absent key whose hash value is "
+        "stored, or one member stored twice) among 0/2/20/150 random ordinary keys or up to 16 keys of the members' bucket, read "
+        "back through the same map oracle with every member looked up (ordered files: also closest_key/keys_from); "
+        "the sets come from a per-process birthday search over 200k..800k random keys of 2..13 bytes per (seed, hash "
+        "type), a pure function of the seed. "
         "A case is non-trivial when the structure is non-empty; distinct = distinct (kind, class/config, opcode "
         "sequence or size signature).")
 ASSUMPTIONS = [
@@ -31,6 +42,11 @@ ASSUMPTIONS = [
     "comparison and the shipped tests use it that way)",
     "HashReader.all(key) is compared as a multiset and reader[key] / get(key) must be one of the values stored under the "
     "key (the order among duplicate keys is not promised)",
+    "equal-hash key sets are found, and the hash.equalhash.* / hash.bucket_wraps reach counters are computed, with an "
+    "independent restatement of the three documented hash functions (md5 low 32 bits, crc32, cdb); if whoosh's functions "
+    "differed from the documentation the files would simply not contain equal-hash keys (the oracle never uses it); "
+    "a seed typically offers only 3..11 different-length and 1..3 equal-length sets per hash type for md5/crc32 (hundreds of "
+    "equal-length ones for cdb), varied by seed, insertion order, neighbours and file offset",
     "file offsets beyond 2^16 / 2^31 / 2^32 are reached through a file object that adds a base to tell()/seek() "
     "(no multi-gigabyte file is written); GrowableArray retyping itself is also exercised directly with large numbers",
     "RoaringIdSet (never instantiated by whoosh, iteration/insert broken by construction) and FieldedOrderedHashWriter/"
@@ -46,6 +62,10 @@ BUDGET_S = {"quick": 60, "thorough": 420}
 FLOORS = {"idset.programs": 900, "idset.reads": 50000, "idset.ondisk": 300, "idset.reverse": 700, "idset.multi": 190,
           "idset.frombytes": 300, "idset.eq.unequal": 500,
           "hash.cases": 200, "hash.lookups": 6000, "hash.shifted": 100, "hash.bucket_wraps": 3000, "hash.crowded_bucket_cases": 80,
+          "hash.equalhash.cases": 110, "hash.equalhash.ordered": 30, "hash.equalhash.lookup_after_other_length": 95,
+          "hash.equalhash.lookup_after_other_length.ht0": 20, "hash.equalhash.lookup_after_other_length.ht1": 20,
+          "hash.equalhash.lookup_after_other_length.ht2": 18, "hash.equalhash.lookup_after_other_length.ordered": 24,
+          "hash.equalhash.lookup_after_same_length": 55, "hash.equalhash.absent_with_stored_hash": 33,
           "ordered.cases": 180, "ordered.probes": 4500,
           "ordered.indextype.H": 80, "ordered.indextype.i": 30, "ordered.indextype.I": 20, "ordered.indextype.q": 30,
           "enc.cases": 280, "enc.growable.q": 3, "enc.growable.I": 8, "enc.growable.i": 10,
@@ -690,6 +710,7 @@ def equalhash_case(ctx, rng):
                 later += 1
                 if any(len(p) != len(k) for p in ks[:i]):
                     ctx.count("hash.equalhash.lookup_after_other_length")
+                    ctx.count("hash.equalhash.lookup_after_other_length.%s" % ("ordered" if ordered else "ht%d" % ht))
                 if any(len(p) == len(k) for p in ks[:i]):
                     ctx.count("hash.equalhash.lookup_after_same_length")
     for k in probe:
